@@ -61,7 +61,7 @@ def gen_graph(rng, wide=False):
         vpool = ["1", "2", "1-2", "2-1", "1.0+3"]
     two = {"dag2": 0.7, "namecycle": 0.7}.get(shape, 0.3)          # share of names with two versions
     p_unres = 0.12 if rng.random() < 0.5 else 0.0
-    p_uns = 0.15 if rng.random() < 0.12 else 0.0
+    p_uns = rng.choice([0.15, 0.35]) if rng.random() < 0.2 else 0.0
     p_j = rng.choice([0.15, 0.3]) if rng.random() < 0.3 else 0.0
     p_missing = 0.25 if (p_uns == 0.0 and rng.random() < 0.1) else 0.0
     p_skip = 0.2 if rng.random() < 0.15 else 0.0          # table lines with --external
@@ -217,6 +217,7 @@ class Resolved:
         self.cur = {p["name"]: p["version"] for p in graph["products"] if "current" in p.get("tags", [])}
         self.succ = {}
         self.has_unsetup = {}
+        self.unsetup_names = {}
         for key, p in self.decl.items():
             node = (key[0], key[1], True)
             out = []
@@ -227,6 +228,7 @@ class Resolved:
                 t = (d["n"], v, True) if v is not None and (d["n"], v) in self.decl else (d["n"], d["v"], False)
                 out.append((t, bool(d.get("j")), d["k"] == "opt"))
             self.succ[node] = out
+            self.unsetup_names[node] = [d["n"] for d in p["deps"] if d["k"] in ("unreq", "unopt") and not d.get("external")]
             # tables the property says nothing about: with an unsetup line, or declared but missing on disk
             self.has_unsetup[node] = any(d["k"] in ("unreq", "unopt") for d in p["deps"]) or bool(p.get("missing"))
 
@@ -278,7 +280,14 @@ def oracle_listing(R, root, mode, out, stats=None):
             stats("closure:j_target_opened_elsewhere")
         if any(t not in expanded and R.succ.get(t) for t in jt):
             stats("closure:j_target_not_opened")
-        for flag, name in ((twover, "twoversions"), (cyclic, "cyclic"), (unsetup, "unsetup"), (any(not a[2] for a in nodes), "unresolved"),
+        # an unsetup line whose own listing comes back to it: where the re-entrance guard of D32's repair acts
+        reent = False
+        for u in R.closure(rootn, ignore_j=True)[1]:
+            for nm in R.unsetup_names.get(u, ()):
+                for t in R.succ:
+                    if t[0] == nm and u in R.closure(t, ignore_j=True)[1]:
+                        reent = True
+        for flag, name in ((twover, "twoversions"), (cyclic, "cyclic"), (unsetup, "unsetup"), (reent, "unsetup_reentrant"), (any(not a[2] for a in nodes), "unresolved"),
                            (any(sum(1 for a in s if a[2]) > 1 for s in names.values()), "two_declared_versions")):
             if flag:
                 stats("closure:" + name)
@@ -288,16 +297,20 @@ def oracle_listing(R, root, mode, out, stats=None):
                 yield ("cycle_only_when_asked", "D31" if twover else None, "RuntimeError without checkCycles")
             elif not cyclic and not unsetup:
                 yield ("cycle_only_when_cyclic", "D31" if twover else None, "cycle reported on an acyclic closure")
-        elif out == "Recursion" and any(R.has_unsetup.get(u) and not R.decl[(u[0], u[1])].get("missing")
-                                        for u in R.closure(rootn, ignore_j=True)[1]):
-            # an unsetup line starts a fresh listing that does not honour the visited set (nor the -j of the line that led
-            # here): whenever that listing comes back to the table with the unsetup line, it never ends
-            yield ("terminates", "D32", "recursion limit: unsetupRequired inside a dependency cycle")
+        elif out == "Recursion":
+            # D32 (repaired: re-entrance guard `_unsetupInProgress`): an unsetup line inside a dependency cycle started a fresh
+            # listing from inside itself without end; whatever the tables say, a listing returns
+            yield ("terminates", None, "RecursionError (D32, repaired, when a table reachable from the root has an unsetup line)")
         else:
             yield ("no_error", None, "listing raised %s" % out)
         return
     if unsetup:
-        return                      # the property does not say what an unsetup line means for the listing
+        # the property does not say what an unsetup line means for the listing; it can only take entries away
+        got = {(e[0], e[1], e[2]) for e in out}
+        missing = any(R.decl.get((u[0], u[1]), {}).get("missing") for u in nodes if u[2])    # adds a placeholder entry
+        if not missing and not got <= listed - {rootn}:
+            yield ("listing_within_reach", None, "extra %s" % sorted(got - listed, key=repr))
+        return
     if cc and cyclic:
         yield ("cycle_reported", "D31" if twover else None, "closure has a cycle, checkCycles returned a listing")
     got = [(e[0], e[1], e[2]) for e in out]
@@ -690,9 +703,7 @@ def evaluate(ctx, graphs, ncli=2, corpus=False):
                 cyc_ok = False
                 inp = {"graph": g, "query": queries[0]}
                 ctx.case(key=[g["products"], "uses"], nontrivial=True)
-                fid = None
-                if io_["uses"] == "Recursion" and any(R.has_unsetup.values()):
-                    fid = "D32"
+                fid = None          # D32 (RecursionError with an unsetup line in a cycle) is repaired
                 ctx.fail("uses_no_error", inp, io_["uses"], ans.get("uses"), note="uses() raised %s" % io_["uses"], finding=fid)
             else:
                 cache = {}
@@ -909,7 +920,7 @@ def run(ctx):
     h = ctx.histogram
     if not ctx.escalated and n >= 100:
         for need in ("closure:cyclic", "closure:two_declared_versions", "closure:unresolved", "shape=cyclic",
-                     "closure:j_target_opened_elsewhere", "closure:j_target_not_opened", "graph:has_prefix_versions",
+                     "closure:unsetup", "closure:unsetup_reentrant", "closure:j_target_opened_elsewhere", "closure:j_target_not_opened", "graph:has_prefix_versions",
                      "users:prefix_version_with_distinct_users"):
             if not h.get(need):
                 raise common.InfraError("degenerate distribution: no case with %s" % need)
